@@ -26,7 +26,7 @@ type C12Patch struct {
 }
 
 type C12Batch struct {
-	Kind    string     `json:"kind"` // patch = PatchTreasures(Cap) | pe = PatchExpiredTreasures(Cap) | sm = ShiftMatchingTreasures(Cap) | release = PatchTreasures without Cap that only moves records OUT
+	Kind    string     `json:"kind"` // touch = PatchTreasures WITHOUT Cap writing only a field the cap filter does not read (heartbeat) | patch = PatchTreasures(Cap) | pe = PatchExpiredTreasures(Cap) | sm = ShiftMatchingTreasures(Cap) | release = PatchTreasures without Cap that only moves records OUT
 	Patches []C12Patch `json:"patches,omitempty"`
 	Create  bool       `json:"create,omitempty"` // patch: CreateIfNotExist
 	Seed    *Body      `json:"seed,omitempty"`   // patch: InitialMsgpackOnCreate
@@ -37,6 +37,7 @@ type C12Batch struct {
 	Filter  *Filt      `json:"filter,omitempty"` // pe / sm selection filter
 	Index   string     `json:"index,omitempty"`  // sm
 	DelayUs int        `json:"delay_us,omitempty"`
+	Reps    int        `json:"reps,omitempty"` // touch: the request is sent Reps times back to back
 }
 
 type C12Scenario struct {
@@ -100,16 +101,86 @@ func genC12Cap(t *rapid.T) (Filt, []string, []string, bool) {
 	in := all[:k] // leased | leased+held
 	out := all[k:]
 	var f Filt
-	if k == 1 {
-		f.Legs = append(f.Legs, Leg{Field: "status", Op: "eq", S: in[0]})
-	} else {
-		f.Legs = append(f.Legs, Leg{Field: "status", Op: "in", In: append([]string(nil), in...)})
+	statusLeg := Leg{Field: "status", Op: "eq", S: in[0]}
+	if k == 2 {
+		statusLeg = Leg{Field: "status", Op: "in", In: append([]string(nil), in...)}
 	}
-	hasN := rapid.IntRange(0, 3).Draw(t, "capn") == 0
-	if hasN {
+	f.Legs = append(f.Legs, statusLeg) // always the first leg (capIn reads it)
+	hasN := false
+	switch rapid.IntRange(0, 7).Draw(t, "capform") {
+	case 0:
+		hasN = true
 		f.Legs = append(f.Legs, Leg{Field: "n", Op: "ge", I: int64(rapid.IntRange(3, 12).Draw(t, "capnv"))})
+	case 1: // … OR owner IS_EMPTY: records without an owner field — and every record that is not a msgpack map — count too
+		f.Or = true
+		f.Legs = append(f.Legs, Leg{Field: "owner", Op: "empty"})
+	case 2: // … OR status IS_EMPTY
+		f.Or = true
+		f.Legs = append(f.Legs, Leg{Field: "status", Op: "empty"})
+	case 3: // … AND owner IS_NOT_EMPTY
+		f.Legs = append(f.Legs, Leg{Field: "owner", Op: "notempty"})
 	}
 	return f, in, out, hasN
+}
+
+// genC12Alt decides whether a seeded record's value is something else than a msgpack map
+// (typed int64 / string, or bytes without the msgpack magic). Such a record satisfies IS_EMPTY
+// legs only; it is counted against the initial budget like any other matching record.
+func genC12Alt(t *rapid.T, capF *Filt, matching *int, max int, mismatchOpen bool) string {
+	if mismatchOpen && capF.hasEmptyLeg() {
+		return "" // open finding cap-precount-evaluator-mismatch
+	}
+	if rapid.IntRange(0, 6).Draw(t, "alt") != 0 {
+		return ""
+	}
+	alt := rapid.SampledFrom([]string{"int", "str", "raw"}).Draw(t, "altkind")
+	if evalFiltOpaque(capF) {
+		if *matching >= max {
+			return ""
+		}
+		*matching++
+	}
+	return alt
+}
+
+// capHasN: the cap filter has a numeric leg on n (INC ops can then move records in or out).
+func capHasN(f *Filt) bool {
+	for _, l := range f.Legs {
+		if l.Field == "n" && l.Op != "empty" && l.Op != "notempty" {
+			return true
+		}
+	}
+	return false
+}
+
+// capNeutralOp returns a body op that cannot change whether a record matches the cap filter
+// (it writes a field the filter does not read), nil when there is none.
+func capNeutralOp(f *Filt, tag string) []POp {
+	fields := map[string]bool{}
+	f.fields(fields)
+	if !fields["owner"] {
+		return []POp{{Kind: "set-owner", S: tag}}
+	}
+	if !fields["n"] {
+		return []POp{{Kind: "inc-n", I: 1}}
+	}
+	return nil
+}
+
+// c12Matches is THE definition of "the record matches Cap.Filter" used by both C12 oracles: what the
+// evaluator behind filtered reads, Shift* and PatchExpired answers. A msgpack map is judged field by field
+// (an unset field IS_EMPTY, every other operator is false on it); any other value (typed value, bytes
+// without the msgpack magic) satisfies IS_EMPTY legs only. TestC12Budget cross-checks it against a real filtered read.
+func c12Matches(tr *hydrapb.Treasure, capF *Filt) (bool, error) {
+	raw, ok := unwrapBody(tr.BytesVal)
+	if !ok {
+		return evalFiltOpaque(capF), nil
+	}
+	b, has, err := decodePartialBody(raw)
+	if err != nil {
+		return false, err
+	}
+	return evalFiltPartial(capF, b, has), nil
 }
 
 func genC12PatchOps(t *rapid.T, in, out []string, hasN bool) []POp {
@@ -192,7 +263,7 @@ func (b C12Batch) movesIn(in []string, hasN bool) bool {
 	return false
 }
 
-func genC12(strictOpen, indexOnlyOpen bool) func(t *rapid.T) C12Scenario {
+func genC12(strictOpen, indexOnlyOpen, mismatchOpen bool) func(t *rapid.T) C12Scenario {
 	// forced schedules of repaired findings are regression inputs of the main generator
 	var forced []func(*rapid.T) C12Scenario
 	if !strictOpen {
@@ -227,6 +298,7 @@ func genC12(strictOpen, indexOnlyOpen bool) func(t *rapid.T) C12Scenario {
 					matching++
 				}
 			}
+			r.Alt = genC12Alt(t, &capF, &matching, int(s.Max), mismatchOpen)
 			s.Recs = append(s.Recs, r)
 		}
 		newKey := 0
@@ -236,7 +308,19 @@ func genC12(strictOpen, indexOnlyOpen bool) func(t *rapid.T) C12Scenario {
 			var round []C12Batch
 			for bi := 0; bi < nb; bi++ {
 				var b C12Batch
-				switch rapid.SampledFrom([]string{"patch", "patch", "patch", "pe", "pe", "sm", "release"}).Draw(t, "bkind") {
+				switch rapid.SampledFrom([]string{"patch", "patch", "patch", "pe", "pe", "sm", "release", "touch", "touch"}).Draw(t, "bkind") {
+				case "touch":
+					// cap-less heartbeat: rewrites a field the cap filter does not read, several times, on many
+					// records — it holds record guards while the cap-bearing flows count
+					ops := capNeutralOp(&capF, fmt.Sprintf("hb%d", bi))
+					if ops == nil {
+						ops = []POp{{Kind: "set-status", S: out[0]}} // nothing neutral to write: move out instead
+					}
+					b = C12Batch{Kind: "touch", Reps: rapid.IntRange(1, 5).Draw(t, "treps")}
+					np := rapid.IntRange(2, 8).Draw(t, "ntouch")
+					for i := 0; i < np; i++ {
+						b.Patches = append(b.Patches, C12Patch{Key: rapid.IntRange(0, nrec-1).Draw(t, "tkey"), Ops: ops})
+					}
 				case "patch":
 					b = genC12PatchBatch(t, nrec, in, out, hasN, &newKey)
 					if (indexOnlyOpen && b.Create) || rapid.IntRange(0, 5).Draw(t, "pmeta") == 0 {
@@ -267,6 +351,29 @@ func genC12(strictOpen, indexOnlyOpen bool) func(t *rapid.T) C12Scenario {
 				}
 				b.DelayUs = rapid.SampledFrom([]int{0, 0, 0, 30, 200}).Draw(t, "bdelay")
 				round = append(round, b)
+			}
+			if pbt.Open("C11", "shift-removal-not-atomic") {
+				// A record a Shift* has handed out stays patchable until the shift's deferred removal, and a
+				// PatchTreasures that fetched it before re-inserts it afterwards (C11 finding, open): a cap-less
+				// heartbeat can so bring a MATCHING record back after the cap-bearing flows counted it gone.
+				// While that finding is open a round has either ShiftMatching batches or heartbeats.
+				hasSM := false
+				for _, b := range round {
+					if b.Kind == "sm" {
+						hasSM = true
+					}
+				}
+				if hasSM {
+					for i := range round {
+						if round[i].Kind == "touch" {
+							round[i].Kind = "release"
+							round[i].Reps = 0
+							for j := range round[i].Patches {
+								round[i].Patches[j].Ops = []POp{{Kind: "set-status", S: out[0]}}
+							}
+						}
+					}
+				}
 			}
 			if strictOpen {
 				// open finding cap-precount-before-lock: an in-moving PatchTreasures(Cap) batch must not run
@@ -319,11 +426,11 @@ func c12Count(all map[string]*hydrapb.Treasure, capF *Filt) (int, []string, erro
 	n := 0
 	var keys []string
 	for k, tr := range all {
-		b, err := decodeWrapped(tr.BytesVal)
+		m, err := c12Matches(tr, capF)
 		if err != nil {
 			return 0, nil, fmt.Errorf("key %s: %v", k, err)
 		}
-		if evalFilt(capF, b) {
+		if m {
 			n++
 			keys = append(keys, k)
 		}
@@ -335,7 +442,7 @@ func c12Count(all map[string]*hydrapb.Treasure, capF *Filt) (int, []string, erro
 func c12Seed(e *env, sn string, s C12Scenario, wall0 int64) error {
 	var recs []seedRec
 	for i, r := range s.Recs {
-		sr := seedRec{Key: keyOf(i), Body: r.B, Created: wall0 + int64(r.Cre)*1e9}
+		sr := seedRec{Key: keyOf(i), Alt: r.Alt, Body: r.B, Created: wall0 + int64(r.Cre)*1e9}
 		if r.Exp != 0 {
 			sr.Exp = wall0 + int64(r.Exp)*1e9
 		}
@@ -407,7 +514,7 @@ func runC12(s C12Scenario) pbt.Outcome {
 	}
 	capP := s.capProto()
 	in := capIn(&s.Cap)
-	hasN := len(s.Cap.Legs) > 1
+	hasN := capHasN(&s.Cap)
 	cls := map[string]bool{}
 	overlapAny := false
 	demand := 0
@@ -447,6 +554,11 @@ func runC12(s C12Scenario) pbt.Outcome {
 				case "release":
 					resp, err := e.r.G.PatchTreasures(e.ctx, patchReq(sn, b, nil, wall0))
 					r.err, r.nilResp = err, resp == nil
+				case "touch":
+					for rep := 0; rep < max(b.Reps, 1) && r.err == nil && !r.nilResp; rep++ {
+						resp, err := e.r.G.PatchTreasures(e.ctx, patchReq(sn, b, nil, wall0))
+						r.err, r.nilResp = err, resp == nil
+					}
 				case "pe":
 					req := &hydrapb.PatchExpiredTreasuresRequest{IslandID: isl, SwampName: sn, HowMany: b.HowMany, Ops: opsProto(b.Ops), Filters: b.Filter.proto(), Cap: capP}
 					if b.Lease != 0 {
@@ -566,7 +678,7 @@ func describeRound(round []C12Batch) string {
 			s += " ∥ "
 		}
 		switch b.Kind {
-		case "patch", "release":
+		case "patch", "release", "touch":
 			s += fmt.Sprintf("%s[", b.Kind)
 			for j, p := range b.Patches {
 				if j > 0 {
@@ -587,15 +699,22 @@ func describeRound(round []C12Batch) string {
 	return s
 }
 
-const c12Rule = "6–30 msgpack records whose status (and optionally n) puts them inside / outside the cap filter (status IN {leased[,held]} [AND n >= k]), MaxMatching 1–6, initial matching count ≤ cap; " +
+const c12Rule = "6–30 msgpack records whose status (and optionally n) puts them inside / outside the cap filter (status IN {leased[,held]}, alone or AND n >= k / OR owner IS_EMPTY / OR status IS_EMPTY / AND owner IS_NOT_EMPTY) plus some records whose value is not a msgpack map (int64, string, raw bytes), MaxMatching 1–6, initial matching count ≤ cap; " +
 	"1–3 rounds of 2–6 concurrent batches all carrying the SAME Cap: PatchTreasures(Cap) with explicit keys (moves in / out / in→in / out→out, duplicate keys, conditions, creates with a seed body), " +
-	"PatchExpiredTreasures(Cap) (ops move the selected records in, optional lease and selection filter), ShiftMatchingTreasures(Cap), plus cap-less PatchTreasures that only move records out; " +
-	"0–4 drawn vsched actions at the count / capMu / selection / per-record sites. Oracle: after every round (quiescent) the number of records whose body satisfies the cap filter under the independent evaluator ≤ MaxMatching. " +
+	"PatchExpiredTreasures(Cap) (ops move the selected records in, optional lease and selection filter), ShiftMatchingTreasures(Cap), plus cap-less PatchTreasures that only move records out and cap-less repeated heartbeat patches that write a field the filter does not read; " +
+	"0–4 drawn vsched actions at the count / capMu / selection / per-record sites. Oracle: after every round (quiescent) the number of records matching the cap filter (one definition: what the evaluator behind filtered reads / Shift / PatchExpired answers, re-implemented independently and cross-checked against a real filtered read in the budget facet) ≤ MaxMatching. " +
 	"Non-trivial = batches overlap in time and the in-moving demand exceeds the remaining budget."
 
 func TestC12Main(t *testing.T) {
 	open := pbt.Open("C12", "cap-precount-before-lock")
 	idxOnly := pbt.Open("C12", "cap-count-limited-to-walked-index")
+	mismatch := pbt.Open("C12", "cap-precount-evaluator-mismatch")
+	if pbt.Open("C11", "shift-removal-not-atomic") {
+		pbt.Excluded("C12", "main", "cap-less heartbeat patches in the same round as a ShiftMatching (open C11 finding shift-removal-not-atomic: the patch can re-insert a matching record the shift removed)")
+	}
+	if mismatch {
+		pbt.Excluded("C12", "main", "records whose value is not a msgpack map together with a cap filter that has an IS_EMPTY leg (open finding cap-precount-evaluator-mismatch)")
+	}
 	if open {
 		pbt.Excluded("C12", "main", "an in-moving PatchTreasures(Cap) batch concurrent with another in-moving cap-bearing batch (open finding cap-precount-before-lock)")
 	}
@@ -608,7 +727,7 @@ func TestC12Main(t *testing.T) {
 	pbt.Main(t, pbt.Spec[C12Scenario]{
 		ID: "C12", Facet: "main", Rule: c12Rule,
 		Quick: 6000, Thorough: 150000,
-		Gen: genC12(open, idxOnly), Run: runC12,
+		Gen: genC12(open, idxOnly, mismatch), Run: runC12,
 	})
 }
 
@@ -656,7 +775,11 @@ type C12Seq struct {
 	Batches []C12Batch `json:"batches"` // PatchTreasures(Cap) batches, one after the other
 }
 
-func genC12Seq(t *rapid.T) C12Seq {
+func genC12Seq(mismatchOpen bool) func(t *rapid.T) C12Seq {
+	return func(t *rapid.T) C12Seq { return genC12SeqOne(t, mismatchOpen) }
+}
+
+func genC12SeqOne(t *rapid.T, mismatchOpen bool) C12Seq {
 	var s C12Seq
 	s.Mem = rapid.IntRange(0, 3).Draw(t, "mem") == 0
 	capF, in, out, hasN := genC12Cap(t)
@@ -674,6 +797,7 @@ func genC12Seq(t *rapid.T) C12Seq {
 				matching++
 			}
 		}
+		r.Alt = genC12Alt(t, &capF, &matching, int(s.Max), mismatchOpen)
 		s.Recs = append(s.Recs, r)
 	}
 	newKey := 0
@@ -726,11 +850,19 @@ func runC12Seq(s C12Seq) pbt.Outcome {
 		exists bool
 		b      Body
 		has    fieldSet
+		alt    string // value that is not a msgpack map: never patched, matches IS_EMPTY legs only
 	}
 	model := map[string]*rec{}
 	for i, r := range s.Recs {
-		model[keyOf(i)] = &rec{true, r.B, allFields}
+		model[keyOf(i)] = &rec{true, r.B, allFields, r.Alt}
 	}
+	matches := func(r *rec) bool {
+		if r.alt != "" {
+			return evalFiltOpaque(&s.Cap)
+		}
+		return evalFiltPartial(&s.Cap, r.b, r.has)
+	}
+	altPatched, altCounted := 0, 0
 	capP := &hydrapb.Cap{Filter: s.Cap.proto(), MaxMatching: s.Max}
 	transitions, refused, inIn := 0, 0, 0
 	createSeedIn, createOpsIn, createRefused, createEmptySeed := 0, 0, 0, 0
@@ -738,8 +870,11 @@ func runC12Seq(s C12Seq) pbt.Outcome {
 		// the documented four-cell rule
 		count := 0
 		for _, r := range model {
-			if r.exists && evalFiltPartial(&s.Cap, r.b, r.has) {
+			if r.exists && matches(r) {
 				count++
+				if r.alt != "" {
+					altCounted++
+				}
 			}
 		}
 		budget := int(s.Max) - count
@@ -752,6 +887,16 @@ func runC12Seq(s C12Seq) pbt.Outcome {
 			k := c12Key(p.Key)
 			r := model[k]
 			creating := r == nil || !r.exists
+			if !creating && r.alt != "" {
+				// the stored value is not a msgpack map: refused before anything else is looked at
+				altPatched++
+				if r.alt == "raw" {
+					want = append(want, hydrapb.PatchResult_ENCODING_NOT_SUPPORTED)
+				} else {
+					want = append(want, hydrapb.PatchResult_TYPE_MISMATCH)
+				}
+				continue
+			}
 			var input Body
 			var inHas fieldSet
 			if creating {
@@ -800,7 +945,7 @@ func runC12Seq(s C12Seq) pbt.Outcome {
 				transitions++
 			}
 			if creating {
-				model[k] = &rec{true, outB, outHas}
+				model[k] = &rec{true, outB, outHas, ""}
 				want = append(want, hydrapb.PatchResult_CREATED)
 			} else {
 				r.b, r.has = outB, outHas
@@ -835,7 +980,7 @@ func runC12Seq(s C12Seq) pbt.Outcome {
 			if ok != r.exists {
 				return pbt.Failf("budget", "batch %d: key %s present=%v, model %v", bi, k, ok, r.exists)
 			}
-			if !ok {
+			if !ok || r.alt != "" {
 				continue
 			}
 			raw, okm := unwrapBody(tr.BytesVal)
@@ -844,17 +989,16 @@ func runC12Seq(s C12Seq) pbt.Outcome {
 				return pbt.Failf("budget", "batch %d: key %s body %v fields %+v (%v), model %v fields %+v", bi, k, got, gotHas, err, r.b, r.has)
 			}
 		}
-		n := 0
-		var keys []string
-		for k, tr := range all {
-			if raw, okm := unwrapBody(tr.BytesVal); okm {
-				if got, gotHas, err := decodePartialBody(raw); err == nil && evalFiltPartial(&s.Cap, got, gotHas) {
-					n++
-					keys = append(keys, k)
-				}
-			}
+		n, keys, err := c12Count(all, &s.Cap)
+		if err != nil {
+			return pbt.Failf("undecodable-body", "after batch %d: %v", bi, err)
 		}
-		sort.Strings(keys)
+		// the definition of "matches" is the read path's: a filtered read must return exactly these keys
+		if got, err := e.filteredKeys(sn, s.Cap.proto()); err != nil {
+			return pbt.Failf("harness", "filtered read: %v", err)
+		} else if fmt.Sprint(got) != fmt.Sprint(keys) {
+			return pbt.Failf("evaluator-vs-read-path", "after batch %d: a read filtered by [%s] returns %v, the harness evaluator says %v", bi, &s.Cap, got, keys)
+		}
 		if n > int(s.Max) {
 			return pbt.Failf("cap-exceeded", "after batch %d: %d records match the cap filter, cap is %d: %v", bi, n, s.Max, keys)
 		}
@@ -881,6 +1025,12 @@ func runC12Seq(s C12Seq) pbt.Outcome {
 	if createEmptySeed > 0 {
 		out.Classes = append(out.Classes, "create-with-empty-seed")
 	}
+	if altPatched > 0 {
+		out.Classes = append(out.Classes, "patch-on-non-msgpack-record")
+	}
+	if altCounted > 0 {
+		out.Classes = append(out.Classes, "non-msgpack-record-counts-against-cap")
+	}
 	return out
 }
 
@@ -899,7 +1049,7 @@ func TestC12Budget(t *testing.T) {
 			"matching count are compared with a model of the documented four-cell rule (only not-matching→matching consumes one unit of MaxMatching − currentMatching; refused ⇒ CAP_EXCEEDED, no mutation; CapReached iff one was refused). " +
 			"Non-trivial = at least one transition accepted and one refused.",
 		Quick: 6000, Thorough: 100000,
-		Gen: genC12Seq, Run: runC12Seq,
+		Gen: genC12Seq(pbt.Open("C12", "cap-precount-evaluator-mismatch")), Run: runC12Seq,
 	})
 }
 
